@@ -108,6 +108,10 @@ def make_solutions(rng, spec, prob, n, adversarial=True):
             s.variables[:] = [rand_double(rng) for _ in prob.types]
         s.objectives[:] = [rand_double(rng) for _ in range(spec.nobjs)]
         s.constraints[:] = [rng.choice([0.0, -0.0, 1.0, -1.5, 2.0, rand_double(rng), 3, 0, -2]) for _ in range(spec.nconstrs)]
+        if spec.nconstrs >= 2 and rng.random() < 0.08:
+            # violations that are finite one by one but not in total, and totals that sit on a rounding tie
+            s.constraints[:] = rng.choice([[rng.choice([1e308, -1.7e308, 8.9e307]) for _ in range(spec.nconstrs)],
+                                           ([1.0, 2.0 ** -53, 2.0 ** -106] * spec.nconstrs)[:spec.nconstrs]])
         s.constraint_violation = sum([abs(f(x)) for f, x in zip(prob.constraints, s.constraints)])
         s.feasible = s.constraint_violation == 0.0
         s.evaluated = True
@@ -130,7 +134,7 @@ def run(ctx, drv):
                            "variable types real / integer (bit strings) / binary / permutation / subset with int or string elements, "
                            "constrained and unconstrained, minimised and maximised, doubles from an adversarial pool (+-0.0, subnormals, "
                            "max, +-inf, random bit patterns) ; loaded with and without the problem; objectives text files. one case = one "
-                           "(file, load mode); non-trivial = >= 2 solutions and >= 1 constraint or maximised objective; distinct by file content")
+                           "(file, load mode); non-trivial = >= 2 solutions and >= 1 constraint or maximised objective; distinct by file content + constraints declared with the two-argument form and 17-digit thresholds, zero-valued constraints under declarations that reject zero, totals that overflow, numpy.float64 objective values in objective files")
     reqs, post = [], []
 
     def ask(line, fn):
@@ -283,6 +287,16 @@ def run(ctx, drv):
             # ---------------- objectives text file
             if t % 4 == 0 and original:
                 op = os.path.join(tmp, f"o{t}.txt")
+                if t % 8 == 0:
+                    # objective values as a numpy-based evaluate() leaves them: numpy.float64 (a float subclass)
+                    try:
+                        import numpy as _np
+                        import copy as _copy
+                        original = [_copy.deepcopy(s_) for s_ in original]
+                        for s_ in original:
+                            s_.objectives[:] = [_np.float64(float(o_)) for o_ in s_.objectives]
+                    except ImportError:
+                        pass
                 w = call(IO.save_objectives, op, original)
                 lo = call(IO.load_objectives, op, prob)
                 if isinstance(w, str) or isinstance(lo, str) or len(lo) != len(original) or \
